@@ -121,7 +121,15 @@ def run(ctx: Ctx) -> None:
             ctx.check("C20.R4", ws, f"{stage}.complete forwarded iff all(self.{stage}_complete.values()) after marking this mount", ok, f"lifespan.{stage}.complete would be reported before every mount finished its {stage} (or never)", fw[0] if fw else sd)
         hl = repo.func("middleware.dispatcher", f"{cls}._handle_lifespan")
         src = norm(hl)
-        ok = "self.startup_complete = {path: False for path in self.mounts}" in src and "self.shutdown_complete = {path: False for path in self.mounts}" in src and "partial(self.send, path, send)" in src
+        flags_ok = True
+        for stage_ in ("startup", "shutdown"):
+            asg_ = [n for n in walk_local(hl) if isinstance(n, ast.Assign) and dotted(n.targets[0]) == f"self.{stage_}_complete"]
+            try:
+                val_ = eval_expr(asg_[0].value, {"self.mounts": {"/a": 1, "/b": 2}}) if len(asg_) == 1 else None
+            except Exception:
+                val_ = None
+            flags_ok = flags_ok and val_ == {"/a": False, "/b": False}
+        ok = flags_ok and "partial(self.send, path, send)" in src
         ctx.check("C20.R4", f"middleware.dispatcher:{cls}._handle_lifespan", "per-mount flags initialised False; each mount gets send bound to its own path", ok, "fan-out bookkeeping changed", hl)
 
     # ---- R5
@@ -146,6 +154,10 @@ def run(ctx: Ctx) -> None:
         cex = guards_table(guards(pt[0]), lambda e: not ((e.get("is_http") and e.get("s_http")) or (e.get("is_ws") and e.get("s_ws"))), {}, canon)
         ok = cex is None
     ctx.check("C20.R5", wh, "secure / other scopes passed through unchanged", ok, "secure requests must reach the application with the same scope, receive and send", pt[0] if pt else hc)
+    # scopes of other types (lifespan) carry no `scheme`: it may only be read once the type is known
+    reads = [n for n in ast.walk(hc) if isinstance(n, ast.Subscript) and isinstance(n.ctx, ast.Load) and norm(n) == "scope['scheme']"]
+    early = [n for n in reads if not any(a[1] and a[0] in ("scope['type'] == 'http'", "scope['type'] == 'websocket'") for a in guard_atoms(n))]
+    ctx.check("C20.R5", wh, "scope['scheme'] is read only for http / websocket scopes", bool(reads) and not early, "scope['scheme'] is read before the scope type is known: a lifespan scope has no scheme, the KeyError makes the server treat lifespan as unsupported and the wrapped application's startup / shutdown never run", early[0] if early else hc)
 
     # ---- R6
     nu = repo.func("middleware.http_to_https", "HTTPToHTTPSRedirectMiddleware._new_url")
